@@ -27,7 +27,7 @@ REQUIRED = ["trees_built", "trees_with_unpruned_leaf", "trees_fully_pruned", "pr
             "sets_with_a_vacuous_assertion_whose_candidate_is_in_its_own_eliminated_set",
             "parse_logs_with_missing_or_short_assertion_json",
             "parse_winner_only_entry_with_an_empty_list_or_null_for_already_eliminated",
-            "parse_candidate_manifest_omits_a_candidate_of_the_contest"]
+            "parse_candidate_manifest_omits_a_candidate_of_the_contest", "parse_contest_labelled_other_than_IRV"]
 ASSUMPTIONS = ["tag comparison is by assertion content (the module identifies an assertion by list.index, which maps exact "
                "duplicates to one index)"]
 N_CASES = {"quick": 128000, "thorough": 1024000}
@@ -294,7 +294,10 @@ def run_parse(case, rec, V):
             ajson.append({"assertion_type": "IRV_ELIMINATION", "winner": w, "loser": l, "already_eliminated": E})
             adict[f"a{j}"] = {"winner": w, "loser": l, "proved": proved}
             want_el.append((w, set(E), proved))
-    contests = {"7": {"choice_function": "IRV", "n_winners": 1, "winner": [winner], "candidates": list(cands),
+    label = rng.choice(("IRV", "IRV", "IRV", "IRV", "irv", "STV", "Instant-runoff voting"))   # (the label is the log writer's)
+    if label != "IRV":
+        rec.count("parse_contest_labelled_other_than_IRV")
+    contests = {"7": {"choice_function": label, "n_winners": 1, "winner": [winner], "candidates": list(cands),
                       "assertions": adict, "assertion_json": ajson}}
     if rng.random() < 0.25 and len(ajson) >= 2:
         # logs whose "assertion_json" section is missing (the documented fall-back for audits that write none) or shorter
